@@ -25,6 +25,9 @@ CHECKS = {
    "C13": dict(level="proof", technique="contract-based deductive verification (pyvc symbolic execution of the real primitives against a byte-map storage model, whole-buffer postconditions, z3/cvc5); library behaviour of bytearray/numpy as named assumed contracts; exhaustive small-scope native validation",
    text="Every byte-copy primitive of both CPU buffer classes (and update_from_xbuffer on both dispatch branches) is verified for all capacities, offsets and lengths: exactly the addressed bytes change to the source bytes, all other bytes, the length and the source are unchanged, extracted copies are fresh storage, typed views alias the buffer at the requested offset, update_from_nplike stores the C-order encoding for every source layout. The proof is relative to eight named axioms about bytearray/numpy slicing, copying, frombuffer, astype, .data and view (the bulk of the trusted base), which the bounded part validates exhaustively for capacity <= 10/14 and the dtype/layout lists.",
    note="Trusted: storage axioms of pyvc/storage.py (assumed contracts on dependencies), dtype conversion opaque; precondition: in-range offsets, one buffer class per context object.", ref="5 C13, 4.5"),
+   "C14": dict(level="exploration", technique="bounded stand-in: run-time contract of topological_sort/sort_classes evaluated on the real functions over an exhaustive small scope (deductive obligations for the no-dup invariant planned, not built)",
+   text="Contract no-duplicate / complete / parents-first / has_cycle-iff-cyclic checked on the real topological_sort for every source dict over <= 3 nodes (all key orders, parent sequences with repeats and self-loops) and a slice of the 4-node ones; sort_classes and add_kernels on real class graphs of every kind (fieldless structs with dependents, arrays, refs, unions, _depends_on, cycles) for several root orders, including compilation. Bounded, not proved.",
+   note="Not a proof: small-scope exhaustive enumeration; trusted: DFS cycle oracle, host compiler.", ref="5 C14"),
 }
 NA = {}
 
